@@ -45,7 +45,9 @@ def _call(ctx, A, q0, q1, sig, nontrivial=True):
     if _PREV:
         pA, pres = _PREV.pop()
         if isinstance(pres, tuple) and len(pres) == 3 and np.asarray(pres[0]).ndim == 2:
-            ctx.close('qr.previous-result-still-valid', float(np.linalg.norm(np.asarray(pres[0]) @ np.asarray(pres[1]) - pA)), 1e-11 * max(float(np.linalg.norm(pA)), 1e-300) + 0.0,
+            e = oracles.pow2_exponent(pA)
+            pAs, pR = oracles.ldexp(pA, -e), oracles.ldexp(np.asarray(pres[1]), -e)
+            ctx.close('qr.previous-result-still-valid', float(np.linalg.norm(np.asarray(pres[0]) @ pR - pAs)), 1e-11 * max(float(np.linalg.norm(pAs)), 1e-300) + 0.0,
                       'the result of an earlier qr call was altered by a later call', {'A': pA})
     _PREV.append((A0, res))
     return res
@@ -90,7 +92,7 @@ def random_case(ctx, idx, rng):
             m, n = n, m
         if shape_kind == 'wide' and m > n:
             m, n = n, m
-    lay = str(rng.choice(['zero', 'sorted', 'unsorted', 'q0sorted', 'q1sorted', 'disjoint', 'big', 'pairs', 'negative', 'repeated']))
+    lay = str(rng.choice(['zero', 'sorted', 'unsorted', 'q0sorted', 'q1sorted', 'disjoint', 'big', 'pairs', 'negative', 'repeated', 'huge']))
     r = int(rng.integers(1, 4))
     if lay == 'q0sorted':
         q0 = gen.qvec(rng, m, 'sorted', r); q1 = gen.qvec(rng, n, 'unsorted', r)
@@ -109,7 +111,7 @@ def random_case(ctx, idx, rng):
         A = gen.block_matrix(rng, q0, q1, 'real', rank=0)
     else:
         A = gen.block_matrix(rng, q0, q1, kind)
-    scale = float(rng.choice([1, 1e-30, 1e30, 1e-3]))
+    scale = float(rng.choice([1, 1, 1e-30, 1e30, 1e-3, 1e-170, 1e170, 1e-280, 1e280]))      # beyond 1e+-154 the squares of the entries leave the double range
     A = A * scale
     A, mem = gen.memory_layout(rng, A)
     shared = len(np.intersect1d(q0, q1))
@@ -164,7 +166,7 @@ SPEC = {
     'id': 'C11',
     'rule': ('exhaustive: every charge vector in {0,1,2}^(m+n) for all shapes m,n<=3 (quick) / <=4 (thorough), each with '
              'complex full-rank, real, rank-one-per-block, zero, exactly-zero rows/columns, 0/1-valued and exactly duplicated rows/columns; random: shapes up to 40x40 incl. 1xn, mx1, layouts '
-             'zero/sorted/unsorted/one-side-sorted/disjoint/|q|~1e9/encoded pairs, scales 1e-30..1e30; in situ: qr as driven by '
+             'zero/sorted/unsorted/one-side-sorted/disjoint/|q|~1e9/encoded pairs, scales 1e-280..1e280; in situ: qr as driven by '
              'orthonormalize/compress/TDVP/DMRG. A case is non-trivial when the matrix is non-zero and the charge vectors share '
              'at least one value; distinct = distinct (shape class, layout, entry kind, sortedness, overlap) signatures.'),
     'deciding': ['qr.product', 'qr.isometry', 'qr.sector-Q', 'qr.sector-R', 'qr.disjoint', 'qr.operands-unchanged'],
